@@ -41,6 +41,7 @@ def strategy(tier):
         "tomos_b": st.lists(st.integers(1, 5), min_size=1, max_size=4, unique=True),
         "share": st.integers(0, 4),
         "k": st.integers(1, 5),
+        "rotation_type": st.sampled_from(["angular_distance", "angular_distance", "cone_distance"]),
         "px": st.one_of(st.floats(0.1, 10, allow_nan=False), st.just(1.0)),
         "q": st.one_of(gen.euler(), st.integers(0, 23)),
         "t": st.lists(gen.finite(-100, 100), min_size=3, max_size=3),
@@ -115,6 +116,7 @@ def brute(A, B, k, px):
             off = (PB[j] - PA[i]) * px
             rel = RA[i].T @ RB[j]
             exp[(A[i, IX["subtomo_id"]], r)] = {"dist": ds[r] * px, "off": off, "roff": RA[i].T @ off, "ang": oracle.rot_angle_deg(rel), "rel": rel,
+                                                "cone": oracle.angle_between_deg(RA[i][:, 2], RB[j][:, 2]),
                                                 "nn_id": B[j, IX["subtomo_id"]], "tomo": t}
     return exp, tie
 
@@ -159,7 +161,7 @@ def run(case):
     ta, tb = set(A[:, IX["tomo_id"]]), set(B[:, IX["tomo_id"]])
     shared = ta & tb
     few = any((B[:, IX["tomo_id"]] == t).sum() < k for t in shared)
-    out.label(f"k:{k}", f"shared_tomograms:{len(shared)}", "same_list" if case["same"] else "two_lists", "few_candidates" if few else "enough_candidates",
+    out.label(f"k:{k}", f"rotation_type:{case.get('rotation_type', 'angular_distance')}", f"shared_tomograms:{len(shared)}", "same_list" if case["same"] else "two_lists", "few_candidates" if few else "enough_candidates",
               "disjoint_extra" if (ta ^ tb) else "identical_sets")
     out.nontrivial = len(shared) >= 2 and k >= 2 and (few or bool(ta ^ tb))
 
@@ -171,7 +173,11 @@ def run(case):
         ok2, mb = call(out, "Motl", lambda: cryomotl.Motl(mk(b, case["b"] if not case["same"] else case["a"])))
         if not (ok and ok2):
             return None
-        ok, s = call(out, "get_nn_stats", lambda: nnana.get_nn_stats(ma, mb, pixel_size=px, nn_number=k))
+        rt = case.get("rotation_type", "angular_distance")
+        if rt == "angular_distance":
+            ok, s = call(out, "get_nn_stats", lambda: nnana.get_nn_stats(ma, mb, pixel_size=px, nn_number=k))
+        else:
+            ok, s = call(out, "get_nn_stats", lambda: nnana.get_nn_stats(ma, mb, pixel_size=px, nn_number=k, rotation_type=rt))
         return s if ok else None
 
     if not shared:
@@ -212,8 +218,10 @@ def run(case):
             fwd = np.abs(roff - e["rel"] @ np.zeros(3)).max()  # placeholder to keep the classification simple
             out.fail("particle_frame_offset_differs", f"query {key}: {roff.tolist()} vs {e['roff'].tolist()}")
             return out
-        if not (abs(r["angular_distance"] - e["ang"]) <= 2e-5):
-            out.fail("angular_distance_differs", f"query {key}: {r['angular_distance']!r} vs {e['ang']!r}")
+        rt_ = case.get("rotation_type", "angular_distance")
+        want_a = e["ang"] if rt_ == "angular_distance" else e["cone"]
+        if not (abs(r["angular_distance"] - want_a) <= 2e-5):
+            out.fail("angular_distance_differs" if rt_ == "angular_distance" else "cone_distance_differs", f"query {key}: {r['angular_distance']!r} vs {want_a!r}")
             return out
         z = np.array([r["rot_x"], r["rot_y"], r["rot_z"]])
         if np.abs(z - e["rel"][:, 2]).max() > 1e-6:
